@@ -80,6 +80,9 @@ mod parsing;
 mod request;
 mod streams;
 mod tls;
+#[cfg(feature = "verif-hooks")]
+#[doc(hidden)]
+pub mod verif_hooks;
 
 pub use crate::error::{Error, ErrorKind, InvalidResponseKind, Result};
 #[cfg(feature = "multipart-form")]
